@@ -311,7 +311,81 @@ def pyramid_route(job):
     return part
 
 
+def interleaved(job):
+    """Two enumerations alive at once in one thread, consumed in turn under every schedule of a small family (strict
+    alternation, 1:3, 3:1, and "k tiles of the first, all of the second, the rest of the first" for every k): each
+    generator still yields every tile of its own depth and coordinate system, with the geometry of that system."""
+    from toasty import toast
+
+    (spec_a, spec_b) = job
+    part = Part()
+
+    def mk(spec):
+        depth, planetary, bottom_only, filtered = spec
+        if filtered:
+            keep = {(1, 1, 0), (2, 2, 0), (2, 3, 1), (1, 0, 1), (2, 0, 2), (2, 1, 3)} | {(3, x, y) for x in range(8) for y in range(8)}
+            return toast.generate_tiles_filtered(depth, lambda t: tuple(t.pos) in keep, bottom_only=bottom_only, coordsys=cs_of(planetary))
+        return toast.generate_tiles(depth, bottom_only=bottom_only, coordsys=cs_of(planetary))
+
+    def expected(spec):
+        depth, planetary, bottom_only, filtered = spec
+        return len(list(mk(spec)))
+
+    na, nb = expected(spec_a), expected(spec_b)
+    scheds = [("alternate", None), ("1:3", None), ("3:1", None)] + [("split", k) for k in range(0, na + 1, max(1, na // 12))]
+    for sname, k in scheds:
+        cfg = {"interleaved": [list(spec_a), list(spec_b)], "schedule": sname, "k": k}
+        part.case(nontrivial=True)
+        part.executions += 1
+        ga, gb = mk(spec_a), mk(spec_b)
+        got = {0: [], 1: []}
+        alive = {0: True, 1: True}
+
+        def take(i, n):
+            g = (ga, gb)[i]
+            for _ in range(n):
+                if not alive[i]:
+                    return
+                try:
+                    got[i].append(next(g))
+                except StopIteration:
+                    alive[i] = False
+
+        try:
+            if sname == "split":
+                take(0, k)
+                take(1, nb + 1)
+                take(0, na + 1)
+            else:
+                ra, rb = {"alternate": (1, 1), "1:3": (1, 3), "3:1": (3, 1)}[sname]
+                while alive[0] or alive[1]:
+                    take(0, ra)
+                    take(1, rb)
+        except Exception as e:
+            part.violation("interleaved/raises:%s" % type(e).__name__, "%r: %r" % (cfg, e), cfg)
+            continue
+        for i, spec in ((0, spec_a), (1, spec_b)):
+            planetary = spec[1]
+            poss = [tuple(t.pos) for t in got[i]]
+            if len(poss) != (na, nb)[i] or len(set(poss)) != len(poss):
+                part.violation("interleaved/enumeration-set", "%r: enumeration %d yielded %d tiles (%d distinct) when consumed in turn with another one; alone it yields %d" % (cfg, i, len(poss), len(set(poss)), (na, nb)[i]), cfg)
+                break
+            worst = 0.0
+            for t in got[i]:
+                c, inc = tg.single(t.pos.n, t.pos.x, t.pos.y, planetary)
+                worst = max(worst, float(tg.angdist(tvec(t), c).max()))
+                if bool(t.increasing) != inc:
+                    worst = max(worst, 9.0)
+            if worst > 1e-9:
+                part.violation("interleaved/differs-from-reference", "%r: a tile of enumeration %d (%s) is %.3g rad off the reference of its own coordinate system when two enumerations are consumed in turn" % (cfg, i, "planetary" if planetary else "astronomical", worst), cfg)
+                break
+    part.sample({"interleaved": [list(spec_a), list(spec_b)], "schedules": len(scheds)})
+    return part
+
+
 def _job(j):
+    if j[0] == "interleaved":
+        return interleaved(j[1:])
     if j[0] == "pyramid-route":
         return pyramid_route(j[1:])
     if j[0] == "very-deep":
@@ -326,7 +400,7 @@ def run(tier, seed):
     rep.rule = (
         "every tile at depths 1..%d from full enumeration vs the 3-D reference (corners, diagonal, areas, nesting, neighbours), both coordinate systems; "
         "single-tile, path-filtered and point-lookup routes for every tile to depth %d and a deterministic deep lattice to depth %d; at depths 30-40 on a 7x7 lattice the four children "
-        "against the parent's corners and side/diagonal midpoints to 1e-3 tile widths; every tile is non-trivial"
+        "against the parent's corners and side/diagonal midpoints to 1e-3 tile widths; every ordered pair of 6 (8) enumerations (depth, system, leaves-only, filtered) alive at once and consumed in turn under alternation, 1:3, 3:1 and every split point; every tile is non-trivial"
         % (D, 4 if tier == "quick" else 5, nlat)
     )
     rep.assumptions = ["depths beyond the bound are covered only on the lattice x,y in {0,1,2^(n-1)-1,2^(n-1),2^n-2,2^n-1}", "tolerances: 1e-9 rad against the reference, 1e-12 between routes"]
@@ -352,6 +426,13 @@ def run(tier, seed):
         jobs.append(("very-deep", vd[i::4], not bool(i % 2)))
     for planetary in (False, True):
         jobs.append(("pyramid-route", 2 if tier == "quick" else 3, planetary))
+    # two enumerations alive at once: (depth, planetary, bottom_only, filtered)
+    specs = [(2, False, True, False), (2, True, True, False), (3, False, False, False), (3, True, True, False), (3, False, True, True), (2, True, False, True)]
+    if tier == "thorough":
+        specs += [(4, False, True, False), (4, True, False, False)]
+    for a in specs:
+        for b in specs:
+            jobs.append(("interleaved", a, b))
     par.pmap(_job, jobs, rep)
     return rep.finish()
 
@@ -359,7 +440,9 @@ def run(tier, seed):
 def replay(payload):
     r = payload["replay"]
     planetary = r.get("coordsys") == "planetary"
-    if r.get("pyramid_route"):
+    if r.get("interleaved"):
+        p = interleaved((tuple(r["interleaved"][0]), tuple(r["interleaved"][1])))
+    elif r.get("pyramid_route"):
         p = pyramid_route((r["pos"][0], planetary))
     elif r.get("very_deep"):
         p = very_deep(([tuple(r["pos"])], planetary))
